@@ -4,6 +4,10 @@ from ..terms import TermBuilder, fmt, mk, const
 from .common import SELF, self_field
 
 EXPLANATION = (
+    "R13-scan: the loops of scan() carry the guards, polarities and cursor updates of the quotient-filter lookup (walk left while "
+    "shifted; skip a run while continuation; advance to the next occupied bucket, or to the target itself when inserting; in-run "
+    "search stops on equality = present at that slot, on a larger remainder, or at the end of the run) — compared as a set of "
+    "(exit condition, polarity, cursor update) facts, independent of loop shape. "
     "R13-ring: incr/decr are successor/predecessor modulo the slot count. R13-swap-chain (typestate over the shifting loop): the "
     "(continuation, remainder, used) triple of the next slot is read before that slot is overwritten with the carried triple, the "
     "carried triple becomes the one just read, the position advances one slot per iteration, the loop continues while the displaced "
@@ -81,6 +85,7 @@ def run(ctx):
     ring_rules(ctx)
     swap_chain_rules(ctx, ii)
     split_rules(ctx)
+    scan_rules(ctx)
 
     # wrappers
     ins = ctx.anchor("<%s as filters::Filter[T]>::insert" % QF)
@@ -304,3 +309,126 @@ def split_rules(ctx):
                 if fs.get(repr(mk("Lt", const(0), bt))) is False:
                     oks = True
     ctx.check(oks, "R13-split", f.key + ":no-trash", f, "no bits are dropped exactly when q + r == 64", "the `bits_trash > 0` case split is missing or inverted")
+
+
+def scan_rules(ctx):
+    """R13-scan: the loops of scan() have the guards, polarities and cursor updates of the quotient-filter lookup:
+    walk LEFT (decr) while is_shifted to the cluster start; per occupied bucket skip one run (incr while is_continuation) and
+    advance to the next occupied bucket (incr until is_occupied, or the target itself when inserting) until the bucket is the
+    target quotient; inside the run stop on equality (present, at that slot), on a larger remainder (runs are sorted) or at the
+    end of the run. Loop *shape* is free; what is compared is the set of (exit condition, polarity, cursor update) facts."""
+    prog = ctx.prog
+    sc = ctx.anchor(QF + "::scan")
+    if sc is None:
+        return
+    selfp = ("param", 1, "self")
+    quot, rem_p, on_ins = ("param", 2, "quotient"), ("param", 3, "remainder"), ("param", 4, "on_insert")
+    tb = TermBuilder(sc, prog)
+    loops = []
+    for h in sc.loop_heads():
+        body = sc.natural_loop(h)
+        carried = {}
+        for l in range(len(sc.locals)):
+            if sc.local_name(l) and tb.defined_in_loop(l, h):
+                carried[l] = (tb.loop_init(l, h), tb.loop_update(l, h))
+        exits = []
+        for b in sorted(body):
+            t = sc.blocks[b].term
+            if t.k != "switch":
+                continue
+            outs = [s for s in sc.succs(b) if s not in body and sc.can_return(s)]
+            if not outs:
+                continue
+            cond = tb.operand(t.discr, b, len(sc.blocks[b].stmts))
+            arms = {int(v): bb for v, bb in t.j["arms"]}
+            for o in outs:
+                val = [v for v, bb in arms.items() if bb == o]
+                pol = (val[0] != 0) if val else True      # `otherwise` of a bool switch is the true edge
+                exits.append((cond, pol, b))
+        loops.append((h, carried, exits))
+
+    def out(fnname, x):
+        return ("call", "%s::%s::out2" % (QF, fnname), (selfp, x))
+
+    def has_exit(pred):
+        return [(h, c, pol) for h, carried, exits in loops for (c, pol, b) in exits if pred(h, carried, c, pol)]
+
+    def lv_updated_by(carried, lv, fnname):
+        return lv[0] == "loopvar" and lv[1] in carried and any(s == out(fnname, lv) or (s[0] == "call" and s[1] == "%s::%s::out2" % (QF, fnname) and s[2][1][0] == "loopvar" and s[2][1][1] == lv[1]) for s in [carried[lv[1]][1]])
+
+    probs = []
+    # E1: cluster start
+    e1 = has_exit(lambda h, ca, c, pol: c[0] == "index" and c[1] == ("field", selfp, "is_shifted") and c[2][0] == "loopvar" and pol is False
+                  and lv_updated_by(ca, c[2], "decr") and ca[c[2][1]][0] == quot)
+    if not e1:
+        probs.append("no loop walks left from the quotient (decr) while is_shifted and stops at the first unshifted slot")
+    # E2: run skipping / end-of-run tests on is_continuation at the incremented cursor, exit on false
+    e2 = has_exit(lambda h, ca, c, pol: c[0] == "index" and c[1] == ("field", selfp, "is_continuation") and c[2][0] == "call" and c[2][1].endswith("incr::out2") and pol is False)
+    if len({h for h, _, _ in e2}) < 2:
+        probs.append("expected two loops that advance a slot cursor (incr) until is_continuation is false (run skip, in-run search); found %d" % len({h for h, _, _ in e2}))
+    # E3: next occupied bucket
+    e3a = has_exit(lambda h, ca, c, pol: c[0] == "index" and c[1] == ("field", selfp, "is_occupied") and c[2][0] == "call" and c[2][1].endswith("incr::out2") and pol is True)
+    e3b = has_exit(lambda h, ca, c, pol: c == on_ins and pol is True)
+    if not e3a:
+        probs.append("no loop advances the bucket cursor (incr) until is_occupied")
+    if not e3b:
+        probs.append("the bucket walk does not stop at the target quotient itself when inserting")
+    else:
+        # the on_insert exit must be under (cursor == quotient)
+        from ..guards import atomic_facts
+        okq = False
+        for h, carried, exits in loops:
+            for (c, pol, b) in exits:
+                if c == on_ins and pol is True:
+                    fs = atomic_facts(sc, prog, b, tb)
+                    okq = okq or any(tr and x[0] == "op" and x[1] == "Eq" and quot in x[2] and any(y[0] == "call" and y[1].endswith("incr::out2") for y in x[2]) for x, tr in fs)
+        if not okq:
+            probs.append("the on_insert stop is not conditioned on `bucket cursor == quotient`")
+    # E4: outer loop until the bucket cursor is the quotient
+    e4 = has_exit(lambda h, ca, c, pol: c[0] == "op" and c[1] == "Ne" and quot in c[2] and any(x[0] == "loopvar" for x in c[2]) and pol is False)
+    if not e4:
+        probs.append("no outer loop `while bucket != quotient`")
+    # E5: in-run search
+    def is_rem_at_lv(x):
+        return x[0] == "call" and x[1].endswith("::get") and x[2][0] == ("field", selfp, "remainders") and x[2][1][0] == "loopvar"
+    e5eq = has_exit(lambda h, ca, c, pol: c[0] == "op" and c[1] == "Eq" and rem_p in c[2] and any(is_rem_at_lv(x) for x in c[2]) and pol is True)
+    # `r > remainder` or (after the equality exit) the equivalent `r >= remainder`
+    e5gt = has_exit(lambda h, ca, c, pol: c[0] == "op" and c[1] in ("Lt", "Le") and c[2][0] == rem_p and is_rem_at_lv(c[2][1]) and pol is True)
+    if not e5eq:
+        probs.append("the run search does not stop on `stored remainder == remainder`")
+    if not e5gt:
+        probs.append("the run search does not stop on `stored remainder > remainder` (sorted run)")
+    ctx.check(not probs, "R13-scan", sc.key, sc, "scan: cluster-start walk, run skipping, next-occupied walk, sorted in-run search with the documented guards and polarities (%d loops)" % len(loops),
+              "; ".join(probs[:3]))
+    # result records
+    r = tb.return_term()
+    alts = r[1] if r[0] == "phi" else (r,)
+    probs = []
+    pres = [a for a in alts if a[0] == "adt" and dict(a[3]).get("present") == const(True)]
+    if len(pres) != 1:
+        probs.append("%d result records with present: true" % len(pres))
+    else:
+        d = dict(pres[0][3])
+        # position must be the cursor compared in the equality test
+        eqc = [c for h, c, pol in e5eq]
+        cursor = [x[2][1] for c in eqc for x in c[2] if is_rem_at_lv(x)]
+        if not cursor or d.get("position") != cursor[0]:
+            probs.append("present: true reports position %s, not the slot whose remainder matched" % fmt(d.get("position")))
+        if d.get("start_of_run", ("x",))[0] != "adt" or d["start_of_run"][2] != "Some":
+            probs.append("present: true without a start_of_run")
+    fast = [a for a in alts if a[0] == "adt" and dict(a[3]).get("position") == quot and dict(a[3]).get("present") == const(False)]
+    if not fast:
+        probs.append("no fast path `run does not exist and not inserting => absent at the canonical slot`")
+    ctx.check(not probs, "R13-scan-results", sc.key, sc, "present only at the matching slot with its run start; absent fast path at the canonical slot", "; ".join(probs[:3]))
+    # fast path guard: !run_exists && !on_insert, run_exists = is_occupied[quotient]
+    from ..paths import PathEnumerator
+    pe = PathEnumerator(sc, prog, ctx.summ, max_back=0, limit=2000)
+    okf = False
+    occ_q = ("index", ("field", selfp, "is_occupied"), quot)
+    for p in pe.paths():
+        if p.exit_kind != "return":
+            continue
+        facts = {repr(c): t for c, t in pe.path_facts(p)}
+        if len(p.blocks) <= 6 and facts.get(repr(occ_q)) is False and facts.get(repr(on_ins)) is False:
+            okf = True
+    ctx.check(okf, "R13-scan-results", sc.key + ":fast-path", sc, "fast path taken exactly under !is_occupied[quotient] && !on_insert", "the query fast path is not guarded by !is_occupied[quotient] && !on_insert")
